@@ -208,6 +208,29 @@ fn negscale_strategy(max_len: usize) -> BoxedStrategy<Twin> {
         .boxed()
 }
 
+/// (c, scale -k) against the same value with its zeros written out, where c * 10^k lands around a machine-word limit (2^32, 2^64, 2^128):
+/// a hash that multiplies the zeros in with word arithmetic overflows exactly there, for a handful of (c, k) per k.
+fn word_product_strategy() -> BoxedStrategy<Twin> {
+    (prop_oneof![Just(32u32), Just(64), Just(64), Just(128)], 1u32..=38, any::<u64>(), any::<u64>(), any::<bool>(), 0..4u8, -3i64..=3)
+        .prop_map(|(w, k, r1, r2, neg, how, ds)| {
+            let k = k.min(w * 3 / 10); // 10^k below the word limit
+            let k = k.max(1);
+            let tk = BigInt::from(10u8).pow(k);
+            let lo = ((BigInt::from(1) << (w - 1)) / &tk).max(BigInt::from(1));
+            let hi = (BigInt::from(1) << (w + 2)) / &tk;
+            let span = &hi - &lo + BigInt::from(1);
+            let c = &lo + (BigInt::from(r1) * BigInt::from(r2 | 1)) % &span;
+            let zb = match how {
+                0 => k as u64,
+                1 => k as u64 + 1,
+                2 => 1 + r2 % (k as u64),
+                _ => k as u64 + r2 % 40,
+            };
+            mk(&c.to_string(), neg, -(k as i64) + ds, 0, zb, false)
+        })
+        .boxed()
+}
+
 pub fn run(ctx: &Ctx) {
     let t = ctx.tier;
     ctx.enumerated(
@@ -240,4 +263,5 @@ pub fn run(ctx: &Ctx) {
     ctx.generated("limb-structured", "twin", n / 2, "integers built from zero / all-ones / random 64-bit limbs and forced to end in 0..4 decimal zeros, all-ones limbs, near powers of two, boundary words; against re-representations", structured_strategy, check_twin);
     ctx.generated("zeros", "twin", n / 4, "zero with two scales anywhere in [-10^5, 10^5], also zeros reached by negation, x - x, \"-0.00\" and -1 * 0", zero_strategy, check_twin);
     ctx.generated("negscale-vs-written", "twin", n / 16, "n e+k (negative scale) versus n followed by k (+extra) written zeros, k up to 90000", move || negscale_strategy(max_len.min(300)), check_twin);
+    ctx.generated("word-overflow-products", "twin", n / 2, "(c, scale -k +-3) vs c followed by written zeros, with c*10^k anywhere in [2^(w-1), 2^(w+2)) for w = 32, 64, 128 and every k with 10^k below the word limit", word_product_strategy, check_twin);
 }
